@@ -90,16 +90,19 @@ Qed.
 
 (* ================================================================================================================
    binary64 itself: [polydiv] at the primitive floats (AF), through Flocq.
-   Method (as Proofs/RoundPolyFloat.v): every state of the float run being finite, each operation whose result is kept
-   is the correctly rounded exact one, so the float run maps under FR to the run of the SAME [polydiv] in the total
-   standard-model arithmetic A64r of Proofs/RoundDotFloat.v (body_transfer, loop_transfer), to which
+   Method (as Proofs/RoundPolyFloat.v): a finite answer (q, r) forces every state of the float run to be finite
+   (body_fin_inv, loop_fin_inv: each kept value is an operand of a finite kept value, and the cancelled leading
+   coefficient is the numerator of a finite quotient coefficient); each operation whose result is kept is then the
+   correctly rounded exact one, so the float run maps under FR to the run of the SAME [polydiv] in the total
+   standard-model arithmetic A64r of Proofs/RoundDotFloat.v (body_transfer, loop_transfer_fin), to which
    Proofs/Round2Poly.v applies with F = all reals (in A64r, 0 + x = x + 0 = x - 0 = x for every real x).
    The product c * v_top of each pass is NOT required to be finite or free of underflow: its only use is the
    coefficient that the repaired loop overwrites with zero.
-     polydiv_rounded_identity_float_lemma :  polydiv (A := AF) a v = Ok (q, r),  FR (lead v) <> 0,  pd_ok ... ->
+     polydiv_rounded_identity_float_lemma :
+        polydiv (A := AF) a v = Ok (q, r),  q and r finite,  FR (lead v) <> 0,  pd_nounder ... ->
         | FR a_k - Sum_i FR q_i FR v_{k-i} - FR r_k |  <=  g64 (2 M) ( |FR a_k| + Sum_i |FR q_i| |FR v_{k-i}| )
-   [pd_ok]: every state (q, r) of the run has finite coefficients, and no quotient r_top / v_top and no product
-   c * v_j (j below the leading index) of the run underflows.  Not covered: underflow, overflow of kept values.
+   [pd_nounder]: no quotient r_top / v_top and no product c * v_j (j below the leading index) of the run underflows (a
+   condition on computable values of the run).  Not covered: underflow, overflow of kept values.
    ================================================================================================================ *)
 From Coq Require Import Floats Bool Arith.
 From Flocq Require Import BinarySingleNaN PrimFloat.
@@ -406,45 +409,126 @@ Proof.
   unfold t'. rewrite <- (padd_transfer q t Fp). rewrite (ptrim_transfer _ _ E4 Fp). cbn [bind]. reflexivity.
 Qed.
 
-(* ---- the whole run.  [pd_ok]: every state of the float run is finite and no quotient r_top / v_top and no product
-   c * v_j (j below the leading index) of the run underflows -- a condition on computable values of the run itself *)
-Fixpoint pd_ok (fuel : nat) (q r v : list pfloat) : Prop :=
-  Ffin q /\ Ffin r /\
-  (if is_zero (A := AF) r || (length r <? length v)%nat then True else
-   match fuel with
-   | O => True
-   | S fuel' =>
-       no_underflow (FR (nth (length r - 1) r 0%float) / FR (nth (length v - 1) v 0%float)) /\
-       (forall j, (j < length v - 1)%nat ->
-          no_underflow (FR (nth (length r - 1) r 0 / nth (length v - 1) v 0)%float * FR (nth j v 0%float))) /\
-       match polydiv_body (A := AF) q r v with
-       | Ok (q1, r1) => pd_ok fuel' q1 r1 v
-       | Panic _ => True
-       end
-   end).
+(* ---- the whole run *)
+Lemma padd_fin_l (q t : list pfloat) : Ffin (padd (A := AF) q t) -> Ffin q.
+Proof.
+  destruct q as [|x q]; [constructor|]. destruct t as [|y t]; [auto|]. intros H.
+  rewrite (@padd_cons AF) in H.
+  rewrite Forall_forall in *. intros z Hz. apply In_nth_error in Hz as (i & Ei).
+  assert (Li : (i < length (x :: q))%nat) by (apply nth_error_Some; congruence).
+  assert (Hf : ffinite (opt_acc (A := AF) add (opt_acc (A := AF) add zero (nth_error (x :: q) i)) (nth_error (y :: t) i))).
+  { apply H. apply in_map_iff. exists i. split; [reflexivity|]. apply in_seq. change (T AF) with pfloat in *. lia. }
+  rewrite Ei in Hf. cbn [opt_acc] in Hf.
+  assert (H0 : ffinite (0 + z)%float).
+  { destruct (nth_error (y :: t) i); cbn [opt_acc] in Hf; [|exact Hf]. now destruct (add_hom _ _ Hf) as (H0 & _ & _). }
+  now destruct (add_hom _ _ H0) as (_ & Hz' & _).
+Qed.
 
-Lemma pd_ok_fin fuel q r v : pd_ok fuel q r v -> Ffin q /\ Ffin r.
-Proof. destruct fuel; cbn [pd_ok]; tauto. Qed.
+(* a finite state after one pass comes from a finite state *)
+Lemma body_fin_inv (q r v q1 r1 : list pfloat) :
+  r <> [] -> v <> [] -> (length v <= length r)%nat -> FR (nth (length v - 1) v 0%float) <> 0 ->
+  polydiv_body (A := AF) q r v = Ok (q1, r1) -> Ffin q1 -> Ffin r1 -> Ffin q /\ Ffin r.
+Proof.
+  intros Nr Nv Hlen Hvl E Hq1 Hr1.
+  unfold polydiv_body in E. cbv zeta in E.
+  change (T AF) with pfloat in *. change (@zero AF) with 0%float in *.
+  assert (Lr : (0 < length r)%nat) by (destruct r; [congruence|cbn; lia]).
+  assert (Lv : (0 < length v)%nat) by (destruct v; [congruence|cbn; lia]).
+  apply bind_ok in E as (rl & E1 & E). apply (rd_Ok_inv _ _ _ 0%float) in E1 as (_ & ->).
+  apply bind_ok in E as (vl & E2 & E). apply (rd_Ok_inv _ _ _ 0%float) in E2 as (_ & ->).
+  apply bind_ok in E as (c & Ec & E).
+  change (Ok (nth (length r - 1) r 0 / nth (length v - 1) v 0)%float = Ok c) in Ec. injection Ec as Ec.
+  set (rl := nth (length r - 1) r 0%float) in *. set (vl := nth (length v - 1) v 0%float) in *.
+  replace (length r - 1 - (length v - 1))%nat with (length r - length v)%nat in * by lia.
+  set (s := (length r - length v)%nat) in *.
+  set (t := repeat 0%float s ++ [c]) in *.
+  assert (Lt : length t = S s) by (unfold t; rewrite app_length, repeat_length; cbn [length]; lia).
+  assert (Nt : t <> []) by (intros Z; rewrite Z in Lt; discriminate).
+  assert (Lm : length (pmul (A := AF) t v) = length r).
+  { rewrite length_pmul by auto. change (T AF) with pfloat. unfold s in *. lia. }
+  set (r0 := psub (A := AF) r (pmul (A := AF) t v)) in *.
+  assert (L0 : length r0 = length r) by (unfold r0; rewrite length_psub; change (T AF) with pfloat in *; lia).
+  apply bind_ok in E as (l & El & E). unfold usub in El.
+  destruct (1 <=? _)%nat in El; [|discriminate]. injection El as <-.
+  apply bind_ok in E as (r2 & E2 & E). apply upd_Ok_inv in E2 as (Hl & ->).
+  apply bind_ok in E as (r3 & E3 & E).
+  apply bind_ok in E as (q3 & E4 & E). injection E as <- <-.
+  unfold poly in *. change (T AF) with pfloat in *.
+  pose proof (ptrim_fin_inv _ _ E4 Hq1) as Fp.
+  pose proof (ptrim_fin_inv _ _ E3 Hr1) as Fu.
+  split; [exact (padd_fin_l _ _ Fp)|].
+  assert (Fc : ffinite c).
+  { pose proof (padd_fin_r _ _ Fp) as Ft. rewrite Forall_forall in Ft. apply Ft. unfold t. apply in_or_app. right. now left. }
+  rewrite Forall_forall. intros x Hx. apply (In_nth _ _ 0%float) in Hx as (k & Hk & <-).
+  destruct (Nat.eq_dec k (length r - 1)) as [->|Nk].
+  - fold rl. rewrite <- Ec in Fc. now destruct (fdiv_finite_inv rl vl Fc Hvl) as (Hx & _).
+  - assert (Fk : ffinite (nth k r0 0%float)).
+    { pose proof (Ffin_nth _ k Fu) as Fk. rewrite nth_upd_list in Fk by lia. rewrite L0 in Fk.
+      destruct (Nat.eqb_spec k (length r - 1)); [congruence|exact Fk]. }
+    assert (Np : pmul (A := AF) t v <> []) by (intros Z; rewrite Z in Lm; cbn in Lm; lia).
+    unfold r0 in Fk. rewrite (@psub_ne_gen AF) in Fk by auto.
+    change (T AF) with pfloat in Fk. rewrite Lm in Fk.
+    rewrite (nth_map_seq _ _ _ 0%float) in Fk by lia.
+    rewrite (nth_error_nth' r 0%float) in Fk by exact Hk.
+    rewrite (nth_error_nth' (pmul (A := AF) t v) 0%float) in Fk by (change (T AF) with pfloat; lia).
+    cbn [opt_acc] in Fk.
+    destruct (sub_hom _ _ Fk) as (H0 & _ & _). now destruct (add_hom _ _ H0) as (_ & Hx & _).
+Qed.
 
-Lemma loop_transfer (v : list pfloat) (fuel : nat) : forall count (q0 r0 q r : list pfloat),
+Lemma loop_fin_inv (v : list pfloat) (fuel : nat) : forall count (q0 r0 q r : list pfloat),
   v <> [] -> FR (nth (length v - 1) v 0%float) <> 0 ->
-  polydiv_loop (A := AF) fuel count q0 r0 v = Ok (inl (q, r)) -> pd_ok fuel q0 r0 v ->
+  polydiv_loop (A := AF) fuel count q0 r0 v = Ok (inl (q, r)) -> Ffin q -> Ffin r -> Ffin q0 /\ Ffin r0.
+Proof.
+  induction fuel as [|fuel IH]; intros count q0 r0 q r Nv Hv E Hq Hr;
+    rewrite polydiv_loop_unfold in E; destruct (is_zero _ || _) eqn:C.
+  - injection E as <- <-. auto.
+  - discriminate.
+  - injection E as <- <-. auto.
+  - apply orb_false_iff in C as (Cz & Cl). apply Nat.ltb_ge in Cl.
+    assert (Nr : r0 <> []) by (intros ->; discriminate Cz).
+    apply bind_ok in E as ((q1 & r1) & Eb & E). cbn [fst snd] in E.
+    destruct (POLYDIV_MAX <? S count)%nat; [discriminate|].
+    destruct (IH _ _ _ _ _ Nv Hv E Hq Hr) as (Fq1 & Fr1).
+    exact (body_fin_inv q0 r0 v q1 r1 Nr Nv Cl Hv Eb Fq1 Fr1).
+Qed.
+
+(* ---- the whole run.  [pd_nounder]: no quotient r_top / v_top and no product c * v_j (j below the leading index) of
+   the float run underflows -- a condition on computable values of the run itself *)
+Fixpoint pd_nounder (fuel : nat) (q r v : list pfloat) : Prop :=
+  if is_zero (A := AF) r || (length r <? length v)%nat then True else
+  match fuel with
+  | O => True
+  | S fuel' =>
+      no_underflow (FR (nth (length r - 1) r 0%float) / FR (nth (length v - 1) v 0%float)) /\
+      (forall j, (j < length v - 1)%nat ->
+         no_underflow (FR (nth (length r - 1) r 0 / nth (length v - 1) v 0)%float * FR (nth j v 0%float))) /\
+      match polydiv_body (A := AF) q r v with
+      | Ok (q1, r1) => pd_nounder fuel' q1 r1 v
+      | Panic _ => True
+      end
+  end.
+
+Lemma loop_transfer_fin (v : list pfloat) (fuel : nat) : forall count (q0 r0 q r : list pfloat),
+  v <> [] -> FR (nth (length v - 1) v 0%float) <> 0 ->
+  polydiv_loop (A := AF) fuel count q0 r0 v = Ok (inl (q, r)) -> Ffin q -> Ffin r -> pd_nounder fuel q0 r0 v ->
   polydiv_loop (A := A64r) fuel count (map FR q0) (map FR r0) (map FR v) = Ok (inl (map FR q, map FR r)).
 Proof.
-  induction fuel as [|fuel IH]; intros count q0 r0 q r Nv Hv E P;
+  induction fuel as [|fuel IH]; intros count q0 r0 q r Nv Hv E Hq Hr P;
+    destruct (loop_fin_inv v _ _ _ _ _ _ Nv Hv E Hq Hr) as (Fq0 & Fr0);
     rewrite polydiv_loop_unfold in E; rewrite polydiv_loop_unfold;
-    destruct (pd_ok_fin _ _ _ _ P) as (Fq0 & Fr0);
     rewrite <- (is_zero_transfer r0 Fr0), !map_length; change (T AF) with pfloat in *;
     destruct (is_zero (A := AF) r0 || (length r0 <? length v)%nat) eqn:C.
   - injection E as <- <-. reflexivity.
   - discriminate.
   - injection E as <- <-. reflexivity.
-  - cbn [pd_ok] in P. change (T AF) with pfloat in P. rewrite C in P. destruct P as (_ & _ & Ud & Um & P).
+  - cbn [pd_nounder] in P. change (T AF) with pfloat in P. rewrite C in P. destruct P as (Ud & Um & P).
     apply orb_false_iff in C as (Cz & Cl). apply Nat.ltb_ge in Cl.
     assert (Nr : r0 <> []) by (intros ->; discriminate Cz).
-    apply bind_ok in E as ((q1 & r1) & Eb & E). rewrite Eb in P. destruct (pd_ok_fin _ _ _ _ P) as (Fq1 & Fr1).
-    rewrite (body_transfer q0 r0 v q1 r1 Nr Nv Cl Hv Eb Fq1 Fr1 Ud Um). cbn [bind fst snd] in *.
-    destruct (POLYDIV_MAX <? S count)%nat; [discriminate|]. now apply IH.
+    apply bind_ok in E as ((q1 & r1) & Eb & E). rewrite Eb in P. cbn [bind fst snd] in *.
+    destruct (POLYDIV_MAX <? S count)%nat eqn:M; [discriminate|].
+    destruct (loop_fin_inv v _ _ _ _ _ _ Nv Hv E Hq Hr) as (Fq1 & Fr1).
+    rewrite (body_transfer q0 r0 v q1 r1 Nr Nv Cl Hv Eb Fq1 Fr1 Ud Um). cbn [bind fst snd].
+    now apply IH.
 Qed.
 
 Lemma Fadd_0_l_all x : Fadd 0 x = x.
@@ -473,9 +557,10 @@ Proof.
     rewrite IH by exact H. apply andb_false_r.
 Qed.
 
+
 Theorem polydiv_rounded_identity_float_lemma (a v q r : list pfloat) :
-  polydiv (A := AF) a v = Ok (inl (q, r)) -> FR (last v 0%float) <> 0 ->
-  pd_ok (S POLYDIV_MAX) [] a v ->
+  polydiv (A := AF) a v = Ok (inl (q, r)) -> Ffin q -> Ffin r -> FR (last v 0%float) <> 0 ->
+  pd_nounder (S POLYDIV_MAX) [] a v ->
   INR (2 * Nat.min (length a + 1 - length v) (length v)) * u64 < 1 ->
   forall k, Rabs (FR (nth k a 0%float) - Rsum (S k) (fun i => FR (nth i q 0%float) * FR (nth (k - i) v 0%float))
                   - FR (nth k r 0%float))
@@ -483,14 +568,14 @@ Theorem polydiv_rounded_identity_float_lemma (a v q r : list pfloat) :
                * (Rabs (FR (nth k a 0%float))
                   + Rsum (S k) (fun i => Rabs (FR (nth i q 0%float)) * Rabs (FR (nth (k - i) v 0%float)))).
 Proof.
-  intros E Hv P Hn k.
+  intros E Hq Hr Hv P Hn k.
   assert (Nv : v <> []) by (intros ->; apply Hv; exact FR_0).
   assert (Hv' : FR (nth (length v - 1) v 0%float) <> 0) by (rewrite nth_last_idx; exact Hv).
   assert (E' : polydiv (A := A64r) (map FR a) (map FR v) = Ok (inl (map FR q, map FR r))).
   { unfold polydiv in E |- *. rewrite map_length. change (T AF) with pfloat in *.
     destruct (length v =? 0)%nat; [discriminate|]. rewrite (is_zero_lead_false v Hv).
     destruct (is_zero (A := AF) v); [discriminate|].
-    exact (loop_transfer v _ _ [] a q r Nv Hv' E P). }
+    exact (loop_transfer_fin v _ _ [] a q r Nv Hv' E Hq Hr P). }
   assert (Hl : last (map FR v) 0 <> 0).
   { rewrite <- nth_last_idx, map_length, nth_map_FR. exact Hv'. }
   pose proof (polydiv_rounded_identity_lemma u64 u64_range Fadd Fsub Fmul Fdiv Fadd_ok Fsub_ok Fmul_ok Fdiv_ok
@@ -507,18 +592,18 @@ Proof.
   exact H.
 Qed.
 
-Lemma pd_ok_stop fuel (q r v : list pfloat) : Ffin q -> Ffin r ->
-  is_zero (A := AF) r || (length r <? length v)%nat = true -> pd_ok fuel q r v.
-Proof. intros Hq Hr C. destruct fuel; cbn [pd_ok]; change (T AF) with pfloat; rewrite C; auto. Qed.
+Lemma pd_nounder_stop fuel (q r v : list pfloat) :
+  is_zero (A := AF) r || (length r <? length v)%nat = true -> pd_nounder fuel q r v.
+Proof. intros C. destruct fuel; cbn [pd_nounder]; change (T AF) with pfloat; rewrite C; auto. Qed.
 
-Lemma pd_ok_step fuel (q r v q1 r1 : list pfloat) : Ffin q -> Ffin r ->
-  is_zero (A := AF) r || (length r <? length v)%nat = false ->
+Lemma pd_nounder_step fuel (q r v q1 r1 : list pfloat) :
   no_underflow (FR (nth (length r - 1) r 0%float) / FR (nth (length v - 1) v 0%float)) ->
   (forall j, (j < length v - 1)%nat ->
      no_underflow (FR (nth (length r - 1) r 0 / nth (length v - 1) v 0)%float * FR (nth j v 0%float))) ->
-  polydiv_body (A := AF) q r v = Ok (q1, r1) -> pd_ok fuel q1 r1 v -> pd_ok (S fuel) q r v.
+  polydiv_body (A := AF) q r v = Ok (q1, r1) -> pd_nounder fuel q1 r1 v -> pd_nounder (S fuel) q r v.
 Proof.
-  intros Hq Hr C Ud Um Eb P. cbn [pd_ok]. change (T AF) with pfloat. rewrite C, Eb. auto.
+  intros Ud Um Eb P. cbn [pd_nounder]. change (T AF) with pfloat. rewrite Eb.
+  destruct (is_zero (A := AF) r || (length r <? length v)%nat); auto.
 Qed.
 
 (* ---- a concrete division at binary64: (1 + x + x^2) / (1 + 3x), quotient coefficients fl(1/3), fl(fl(1 - fl(1/3))/3) *)
@@ -533,36 +618,29 @@ Proof. vm_compute. reflexivity. Qed.
 Lemma exf_q_inexact : FR (nth 1 exf_q 0%float) < 1 / 3.
 Proof. cbn [nth exf_q]. fr_eval. Qed.
 
-Lemma exf_pd_ok : pd_ok (S POLYDIV_MAX) [] exf_a exf_v.
+Lemma exf_fin : Ffin exf_q /\ Ffin exf_r.
+Proof. split; repeat constructor; apply ffinite_SF; reflexivity. Qed.
+
+Lemma exf_nounder : pd_nounder (S POLYDIV_MAX) [] exf_a exf_v.
 Proof.
   assert (E1 : FR 1%float = 1) by fr_eval. assert (E3 : FR 3%float = 3) by fr_eval.
   assert (B3 : / 4 <= FR (1 / 3)%float <= / 2) by (split; fr_eval).
   assert (Bx : / 2 <= FR 0x1.5555555555556p-1%float <= 1) by (split; fr_eval).
   assert (Bc : / 8 <= FR (0x1.5555555555556p-1 / 3)%float <= / 2) by (split; fr_eval).
-  assert (F1 : ffinite 1%float) by (apply ffinite_SF; reflexivity).
   unfold exf_a, exf_v.
-  apply (pd_ok_step _ _ _ _ [0%float; (1 / 3)%float] [1%float; 0x1.5555555555556p-1%float]).
-  - constructor.
-  - repeat constructor; exact F1.
-  - vm_compute. reflexivity.
+  apply (pd_nounder_step _ _ _ _ [0%float; (1 / 3)%float] [1%float; 0x1.5555555555556p-1%float]).
   - cbn [length nth Nat.sub]. rewrite E1, E3. apply no_underflow_ge_small. rewrite Rabs_pos_eq; lra.
   - intros j Hj. cbn [length Nat.sub] in Hj. assert (j = 0%nat) by lia. subst j. cbn [length nth Nat.sub].
     rewrite E1. apply no_underflow_ge_small. rewrite Rabs_pos_eq; lra.
   - vm_compute. reflexivity.
   - unfold POLYDIV_MAX.
-    apply (pd_ok_step _ _ _ _ exf_q exf_r).
-    + repeat constructor; apply ffinite_SF; reflexivity.
-    + repeat constructor; apply ffinite_SF; reflexivity.
-    + vm_compute. reflexivity.
+    apply (pd_nounder_step _ _ _ _ exf_q exf_r).
     + cbn [length nth Nat.sub]. rewrite E3. apply no_underflow_ge_small.
       rewrite Rabs_pos_eq; [lra|]. apply Rmult_le_pos; lra.
     + intros j Hj. cbn [length Nat.sub] in Hj. assert (j = 0%nat) by lia. subst j. cbn [length nth Nat.sub].
       rewrite E1. apply no_underflow_ge_small. rewrite Rabs_pos_eq; lra.
     + vm_compute. reflexivity.
-    + apply pd_ok_stop.
-      * repeat constructor; apply ffinite_SF; reflexivity.
-      * repeat constructor; apply ffinite_SF; reflexivity.
-      * vm_compute. reflexivity.
+    + apply pd_nounder_stop. vm_compute. reflexivity.
 Qed.
 
 Lemma exf_lead : FR (last exf_v 0%float) <> 0.
@@ -570,3 +648,16 @@ Proof. cbn [last exf_v]. assert (E3 : FR 3%float = 3) by fr_eval. rewrite E3. lr
 
 Lemma exf_size : INR (2 * Nat.min (length exf_a + 1 - length exf_v) (length exf_v)) * u64 < 1.
 Proof. cbn [length exf_a exf_v Nat.add Nat.sub Nat.mul Nat.min INR]. pose proof u64_small. lra. Qed.
+
+(* ---- what the float run does outside the hypotheses (vm_compute, for the record):
+   a NaN coefficient in the dividend ends as a NaN quotient coefficient and a remainder reported as exactly zero (the
+   cancelled leading coefficient is SET to zero whatever its value); a divisor whose leading coefficient is zero gives
+   infinite coefficients with Ok; with v = 49 the discarded residual 1 - fl(1/49) 49 = 2^-53 is not zero although r = 0 *)
+Lemma polydiv_float_nan_dividend : polydiv (A := AF) [nan; 1%float] [1%float] = Ok (inl ([nan; 1%float], [0%float])).
+Proof. vm_compute. reflexivity. Qed.
+Lemma polydiv_float_zero_lead : polydiv (A := AF) [1%float; 1%float] [1%float; 0%float] = Ok (inl ([infinity], [neg_infinity])).
+Proof. vm_compute. reflexivity. Qed.
+Lemma polydiv_float_discarded_residual :
+  polydiv (A := AF) [1%float] [49%float] = Ok (inl ([(1 / 49)%float], [0%float])) /\
+  (1 - 1 / 49 * 49)%float = 0x1p-53%float.
+Proof. split; vm_compute; reflexivity. Qed.
